@@ -100,7 +100,7 @@ def run(ctx, chk):
             ok = len(r) == 1 and not r[0].guards and pipes.map_collect_of(r[0].ret, "std::string::String", "codec::Codec::to_char") == P(1)
             chk.ob("S-display", "String::from(&SeqSlice)", ok, "must be content.iter().map(to_char).collect::<String>(); got " + (show(r[0].ret)[:200] if r else "?"), sb["span"],
                    sample="Collect<String>(Map(Iter(content), to_char))")
-            str_from_slice = sb["path"] if ok else None
+            str_from_slice = "CONV<&seq::slice::SeqSlice<A> -> std::string::String>" if ok else None
         db = an.one(chk, "S-display", bio, "Display for SeqSlice", name="fmt", trait="std::fmt::Display", self_re=r"^seq::slice::SeqSlice<A>$")
         if db and str_from_slice:
             paths, _ = an.analyse(cfg, db)
